@@ -391,6 +391,7 @@ type cfgCase struct {
 	served           *servedHandshake // the latest handshake the server authenticated (for replays)
 	retry, revert    *cfgFile      // after a bind that failed because of a foreign socket: the same file again, then back
 	saltN            uint64
+	retainedUDP      map[string]bool // udp listener keys bound by both the previous and the serving configuration (after a completed reload)
 	dead             bool
 }
 
@@ -1016,6 +1017,9 @@ func (c *cfgCase) authUDP(addr string, key *specKey) (string, bool) {
 		}
 		if !got {
 			c.out.Oracle("C09", "udp listener %s: attributed to %q but no echo came back", addr, id)
+			if c.retainedUDP["udp/"+addr] {
+				c.out.Oracle("C11", "after a completed reload a datagram to the retained address udp/%s was attributed to %q but got no answer: it was handled by a generation that is no longer serving", addr, id)
+			}
 		}
 	}
 	if !searched {
@@ -1407,6 +1411,51 @@ func retainedPairs(old, next *cfgFile) (pairs [][2]any) {
 	return
 }
 
+// firstDatagramAfterReload: once a reload has COMPLETED, the first datagram a client sends to a UDP
+// address that both configurations bind, under a key that both list, is answered (it is the new
+// generation's to handle: the old one has been stopped and its associations are gone).  Earlier
+// probes never saw this datagram: anything sent while the reload was in progress may legitimately
+// lose its reply.
+func (c *cfgCase) firstDatagramAfterReload(prev, next *cfgFile) {
+	n := 0
+	for _, p := range retainedPairs(prev, next) {
+		lk, ck := p[0].(string), p[1].(clientKey)
+		if !strings.HasPrefix(lk, "udp/") || n >= 3 {
+			continue
+		}
+		n++
+		addr := lk[4:]
+		sk := newSpecKey(specCiphers[ck.cipher].name, ck.secret)
+		answered := func(token string) bool {
+			conn, err := dialFrom("udp", dialAddr(addr))
+			if err != nil {
+				return true // nothing was sent
+			}
+			defer conn.Close()
+			conn.Write(sk.packUDP(c.freshSalt(sk.c.saltSize), append(socksAddrV4(c.tg.ip, c.tg.echoPort), []byte(token)...)))
+			conn.SetReadDeadline(time.Now().Add(1500 * time.Millisecond))
+			buf := make([]byte, 2048)
+			for {
+				k, err := conn.Read(buf)
+				if err != nil {
+					return false
+				}
+				if plain, err := sk.openUDP(buf[:k]); err == nil && bytes.HasSuffix(plain, []byte(token)) {
+					return true
+				}
+			}
+		}
+		c.saltN++
+		first := answered(fmt.Sprintf("after-reload-%d-a", c.saltN))
+		c.out.Stat("reload.udp.first-datagram", 1)
+		if !first && !c.dead {
+			second := answered(fmt.Sprintf("after-reload-%d-b", c.saltN))
+			c.out.Oracle("C11", "after a completed reload the first datagram to the retained address %s under a key of both configurations got no answer (the next one: answered=%v): it was not handled by the serving generation", lk, second)
+		}
+	}
+	c.events()
+}
+
 func (c *cfgCase) step(first bool) {
 	r := c.r
 	var next *cfgFile
@@ -1511,6 +1560,17 @@ func (c *cfgCase) step(first bool) {
 		c.finishHammer(hm, hmLK, ft.kind)
 	}
 
+	c.retainedUDP = map[string]bool{}
+	if ok && !first && prev != nil {
+		_, pm := prev.owned()
+		_, nm := next.owned()
+		for lk := range pm {
+			if _, both := nm[lk]; both && strings.HasPrefix(lk, "udp/") {
+				c.retainedUDP[lk] = true
+			}
+		}
+		c.firstDatagramAfterReload(prev, next)
+	}
 	if ok && hm == nil && !first {
 		c.replayServed("after-reload")
 	}
@@ -1709,6 +1769,16 @@ func (c *cfgCase) storm() {
 	c.out.Stat("storm.reloads", k)
 	if !c.dead {
 		c.finishHammer(hm, lk, "consecutive-reloads")
+		// both configurations of the storm bind the addresses they share the whole time
+		c.retainedUDP = map[string]bool{}
+		_, am := cfgs[0].owned()
+		_, bm := cfgs[1].owned()
+		for l := range am {
+			if _, both := bm[l]; both && strings.HasPrefix(l, "udp/") {
+				c.retainedUDP[l] = true
+			}
+		}
+		c.firstDatagramAfterReload(cfgs[0], cfgs[1])
 		c.opBound()
 		c.probeAll(c.keyPool(c.cur, alt))
 	}
